@@ -295,7 +295,7 @@ func TestVerifHostConc(t *testing.T) {
 		for k := 1; k <= callers; k++ {
 			tag, w, modes := plan(k, r)
 			lines = append(lines, vhLine("case", "id", "host/"+tag, "agent", "host", "variant", "host", "tag", tag, "user", fmt.Sprintf("q|%s|%d", tag, w), "n", 0, "d", 0, "w", w,
-				"modifier", false, "rd", false, "callers", callers))
+				"modifier", false, "alt", false, "rd", false, "callers", callers))
 			for ci, mode := range modes {
 				lines = append(lines, vhLine("call", "mode", mode))
 				lines = append(lines, rec.events[tag+"#"+mode]...)
@@ -307,7 +307,7 @@ func TestVerifHostConc(t *testing.T) {
 	}
 	if len(rec.orphan) > 0 {
 		lines = append(lines, vhLine("case", "id", "host/orphans", "agent", "host", "variant", "host", "tag", "", "user", "", "n", 0, "d", 0, "w", 0,
-			"modifier", false, "rd", false, "callers", callers))
+			"modifier", false, "alt", false, "rd", false, "callers", callers))
 		for _, l := range rec.orphan {
 			lines = append(lines, vhLine("orphan", "line", l))
 		}
